@@ -8,6 +8,7 @@ import (
 	"fmt"
 	"math/rand"
 	"os"
+	"runtime"
 	"strings"
 	"sync"
 	"time"
@@ -476,6 +477,32 @@ func main() {
 			err := v.Validate(c)
 			err2 := v.ValidateMap(cwt.ClaimsMap{iana.CWTClaimIss: "iss", iana.CWTClaimExp: exp, iana.CWTClaimNbf: nbf})
 			return []byte(fmt.Sprint(err == nil, err2 == nil))
+		}})
+	}
+
+	// look up, use once, forget — under memory pressure: the implementation object is garbage as soon as the call is
+	// under way; nothing it owns may be reclaimed or wiped before the call returns (large messages, collections forced)
+	{
+		k := must(ed25519.GenerateKey())
+		keep := must(k.Signer())
+		big := make([]byte, 256<<10)
+		for i := range big {
+			big[i] = byte(i * 7)
+		}
+		want := must(keep.Sign(big))
+		km := must(hmac.GenerateKey(iana.AlgorithmHMAC_256_64))
+		wantTag := must(must(km.MACer()).MACCreate(big))
+		tasks = append(tasks, task{"Ephemeral/sign-and-forget", func(i int) []byte {
+			go runtime.GC()
+			sig := must(must(k.Signer()).Sign(big))
+			if !bytes.Equal(sig, want) {
+				return []byte("FAIL: an Ed25519 signature differs from the deterministic one")
+			}
+			tag := must(must(km.MACer()).MACCreate(big))
+			if !bytes.Equal(tag, wantTag) {
+				return []byte("FAIL: an HMAC tag differs")
+			}
+			return []byte("ok")
 		}})
 	}
 
